@@ -36,7 +36,8 @@ TRUSTED_BASE = [
 ]
 ASSUMPTIONS = [
 	'a file is identified by the file-system object its import string resolves to (the model abstracts import strings to file identities); '
-	'spellings with `.`, `..`, doubled separators are generated, symlinks and absolute import strings are not; the file system is case sensitive '
+	'spellings with `.`, `..`, doubled separators and absolute paths (of files inside and outside the include directory, with and without a decoy '
+	'at <include>/<absolute path without its leading slash>) are generated, symlinks are not; the file system is case sensitive '
 	'(checked at start, the case-collision graphs are skipped otherwise)',
 	'a file is identified by its path; the model abstracts a parsed file to (imports in order, declaration names in order)',
 	'exceptions that escape main() give interpreter exit status 1 (checked on real subprocesses for a sample of cases)',
@@ -119,8 +120,11 @@ REFERENCES = ['sizeref', 'size', 'discriminator', 'comparer', 'initializes']
 UNPARSABLE_TEXTS = ['using lower = uint8\n', 'struct\n', '', 'using Foo = uint24\n', 'import foo\n', 'struct Foo\nfield = uint8\n', 'using Foo = uint8']
 
 
-def spell(path, style):
-	"""another spelling of the include-relative path of a file (the directory `zz` exists in every include directory)"""
+def spell(path, style, absolute=None):
+	"""another spelling of the include-relative path of a file (the directory `zz` exists in every include directory); `absolute` is the
+	absolute path of the file, used by the style of that name (pathlib: `include / "/abs/x.cats"` is `/abs/x.cats`)"""
+	if 'absolute' == style:
+		return absolute if absolute else path
 	if 'dot' == style:
 		return './' + path
 	if 'dotdot' == style:
@@ -139,14 +143,14 @@ def spell(path, style):
 SPELLINGS = ['plain', 'dot', 'dotdot', 'slashes', 'inner-dot', 'dir-dotdot']
 
 
-def file_text(spec, paths):
+def file_text(spec, paths, locations=None):
 	if 'unparsable' == spec['kind']:
 		return UNPARSABLE_TEXTS[spec['variant'] % len(UNPARSABLE_TEXTS)]
 	parts = []
 	styles = list(spec.get('spellings') or [])
 	for item in spec['items']:
 		if 'import' == item[0]:
-			parts.append(f'import "{spell(paths[item[1]], styles.pop(0) if styles else "plain")}"\n')
+			parts.append(f'import "{spell(paths[item[1]], styles.pop(0) if styles else "plain", (locations or {}).get(item[1]))}"\n')
 		elif 'decl' == item[0]:
 			parts.append(decl_text(item[1], item[2], item[3]))
 		else:
@@ -211,7 +215,7 @@ def gen_graph(rng, thorough):
 	shape = rng.choice([
 		'chain', 'diamond', 'repeated', 'cycle', 'root-cycle', 'root-self', 'dag', 'digraph', 'digraph', 'missing', 'unparsable', 'single-import',
 		'single-decl', 'single-comment', 'invalid', 'invalid-post', 'island', 'case-collision', 'case-collision', 'unicode-names', 'spellings',
-		'carriers', 'carriers'])
+		'carriers', 'carriers', 'absolute-imports', 'absolute-imports'])
 	if shape in ('case-collision', 'unicode-names') and not DISTINCT_NAMES[0]:
 		shape = 'dag'
 	count = rng.randint(2, 12 if thorough else 7)
@@ -362,10 +366,19 @@ def gen_graph(rng, thorough):
 		files[ident] = {'path': custom_paths.get(index, relpath_of(index, nested)), 'kind': 'parsed', 'items': items}
 		if 'spellings' == shape or (shape in ('case-collision', 'unicode-names') and rng.random() < 0.3):
 			files[ident]['spellings'] = [rng.choice(SPELLINGS) for _ in imports_of(files[ident])]
+	outside = []
+	if 'absolute-imports' == shape:
+		# import strings that are absolute paths, of files inside the include directory and of files outside it (those only so)
+		outside = [f'f{index}' for index in range(1, count) if rng.random() < 0.3]
+		for ident, spec in files.items():
+			if 'parsed' == spec['kind']:
+				spec['spellings'] = ['absolute' if target in outside or rng.random() < 0.6 else rng.choice(SPELLINGS) for target in imports_of(spec)]
 	for index in range(count):
 		if 'unparsable' == kinds.get(index) and index in custom_paths:
 			files[f'f{index}']['path'] = custom_paths[index]
-	return {'files': files, 'root': 'f0', 'shape': shape, 'missing': [f'f{index}' for index in missing], 'nested': nested}
+	return {
+		'files': files, 'root': 'f0', 'shape': shape, 'missing': [f'f{index}' for index in missing], 'nested': nested, 'outside': outside,
+		'rerooted_decoys': 'absolute-imports' == shape and rng.random() < 0.5}
 
 
 def imports_of(spec):
@@ -381,12 +394,27 @@ def write_graph(graph, directory):
 	for ident in graph['missing']:
 		paths[ident] = f'{ident}-absent.cats'
 	os.makedirs(os.path.join(directory, 'zz'), exist_ok=True)
+	locations = file_locations(graph, directory)
 	for ident, spec in graph['files'].items():
-		target = os.path.join(directory, spec['path'])
+		target = locations[ident]
 		os.makedirs(os.path.dirname(target), exist_ok=True)
 		with open(target, 'wt', encoding='utf8', newline='') as outfile:
-			outfile.write(file_text(spec, paths))
+			outfile.write(file_text(spec, paths, locations))
+		if graph.get('rerooted_decoys') and 'absolute' in [style for other in graph['files'].values() for style in other.get('spellings') or []]:
+			# a decoy where the absolute import string would land if it were taken relative to the include directory
+			decoy = os.path.join(directory, target.lstrip(os.sep))
+			os.makedirs(os.path.dirname(decoy), exist_ok=True)
+			with open(decoy, 'wt', encoding='utf8') as outfile:
+				outfile.write(f'using RerootedDecoy{ident.upper()}x = uint8\n')
 	return paths
+
+
+def file_locations(graph, directory):
+	"""absolute path of every file of the graph: under the include directory, or (files marked `outside`) next to it"""
+	outside = os.path.join(os.path.dirname(os.path.abspath(directory)), 'outside')
+	return {
+		ident: os.path.join(outside if ident in (graph.get('outside') or []) else os.path.abspath(directory), spec['path'])
+		for ident, spec in graph['files'].items()}
 
 
 # endregion
@@ -720,6 +748,7 @@ def run_case(ctx, impl, case, number):
 	if root is None:
 		root = os.path.relpath(os.path.join(include_abs, root_rel), cwd)
 	ident_of = {os.path.realpath(os.path.join(include_abs, path)): ident for ident, path in paths.items()}
+	ident_of.update({os.path.realpath(location): ident for ident, location in file_locations(graph, include_abs).items()})
 
 	spec = spec_dfs(graph)
 	model = None
